@@ -4,6 +4,33 @@ from .values import *
 from .gostate import *
 from . import speclang
 
+def has_var(t, _seen=None):
+    seen = set() if _seen is None else _seen
+    if t.get_id() in seen: return False
+    seen.add(t.get_id())
+    if z3.is_var(t): return True
+    return any(has_var(c, seen) for c in t.children())
+
+def select_patterns_deep(body, kq):
+    """like select_patterns, but also looks inside nested quantifiers (array reads there that do not mention the inner
+    bound variable are legitimate triggers of the outer quantifier)"""
+    out, seen = [], set()
+    def has(t):
+        if t.get_id() == kq.get_id(): return True
+        return any(has(c) for c in t.children())
+    def go(t):
+        if t.get_id() in seen: return
+        seen.add(t.get_id())
+        if z3.is_quantifier(t):
+            go(t.body()); return
+        if z3.is_select(t) and not has_var(t) and has(t.arg(1)) and not has(t.arg(0)):
+            out.append(t); return
+        for c in t.children(): go(c)
+    go(body)
+    uniq = {}
+    for t in out: uniq[t.get_id()] = t
+    return list(uniq.values())[:6]
+
 def select_patterns(body, kq):
     """explicit E-matching triggers: every array read whose index mentions the bound variable (z3's own inference
     rejects triggers containing `+` and falls back to MBQI, which does not terminate on these goals)"""
@@ -24,7 +51,40 @@ def select_patterns(body, kq):
     for t in out: uniq[t.get_id()] = t
     return list(uniq.values())[:4]
 
+def sel_through_stores(a, idx, depth=0):
+    """select(store(A, i, v), k) written as ite(k == i, v, select(A, k)) when k is symbolic: contract clauses about an array
+    that was just updated then contain reads of the array before the update, which is what the facts known about it
+    (invariants, callee postconditions) can be matched against"""
+    if depth < 4 and z3.is_store(a) and not z3.is_int_value(z3.simplify(idx - a.arg(1))):
+        return z3.If(idx == a.arg(1), a.arg(2), sel_through_stores(a.arg(0), idx, depth + 1))
+    return z3.Select(a, idx)
+
+def base_variants(pats):
+    """for a trigger select(store(...store(A, ..)..), idx) also offer select(A, idx): facts about the array before the
+    update then instantiate the quantifier (read-over-write is not applied by E-matching)"""
+    out = list(pats or [])
+    for p in list(out):
+        if z3.is_select(p):
+            a = p.arg(0); changed = False
+            while z3.is_store(a):
+                a = a.arg(0); changed = True
+            if changed:
+                out.append(z3.Select(a, p.arg(1)))
+    uniq = {}
+    for t in out: uniq[t.get_id()] = t
+    return list(uniq.values())
+
+def mk_exists(vs, body, pats):
+    good = []
+    for p in base_variants(pats):
+        try:
+            z3.Exists(vs, body, patterns=[p]); good.append(p)
+        except z3.Z3Exception:
+            pass
+    return z3.Exists(vs, body, patterns=good) if good else z3.Exists(vs, body)
+
 def mk_forall(vs, body, pats):
+    pats = base_variants(pats)
     """ForAll with explicit triggers; triggers z3 rejects (interpreted heads, if-then-else inside) are dropped one by one"""
     good = []
     def has_ite(t, seen):
@@ -53,8 +113,10 @@ def normalize_index(formula, kq):
         idx = s.arg(1)
         c = z3.simplify(idx - kq)
         if contains(c, kq):
-            return None
+            continue                # an index that is not k + c (e.g. a map key computed from x[k]): follows the substitution
         offs.append(c)
+    if not offs:
+        return None
     c0 = offs[0]
     if any(not z3.eq(c0, c) for c in offs[1:]):
         return None
@@ -76,6 +138,7 @@ class SpecEnv:
             if hasattr(parent, 'binds_old'): self.binds_old = parent.binds_old
             if getattr(parent, 'call_site', False): self.call_site = True
             if getattr(parent, 'assume_mode', False): self.assume_mode = True
+            if getattr(parent, 'strict_names', False): self.strict_names = True
 
 class SpecMixin:
     # sev: evaluate spec expression to a value in the shared value domain
@@ -113,6 +176,8 @@ class SpecMixin:
                     return z3.Implies(lhs, self.sev(env, e[3]))
                 except Unsupported as ex:
                     if 'unknown name' in str(ex):      # consequent names a local that does not exist on this path / for this caller
+                        if getattr(env, 'strict_names', False):
+                            raise                       # (hints: the caller skips a hint about a local that does not exist)
                         if getattr(env, 'assume_mode', False):
                             return z3.BoolVal(True)     # as an assumption (callee contract at a call site) the clause says nothing
                         return z3.Not(lhs)              # as a goal the implication can hold only vacuously
@@ -213,7 +278,7 @@ class SpecMixin:
             self.need_lit(env.st, x)
             return z3.Select(x.arr, x.off + i)
         if isinstance(x, SliceV):
-            terms = [z3.Select(a, x.off + i) for a in x.arrs]
+            terms = [sel_through_stores(a, x.off + i) for a in x.arrs]
             if x.etid is None:
                 return terms[0]
             return self.lay.unflatten(iter(terms), x.etid)
@@ -313,6 +378,12 @@ class SpecMixin:
                     return z3.ForAll([k1, k2], body, patterns=[z3.MultiPattern(p1[0], p2[0])])
                 except z3.Z3Exception:
                     pass
+            both = [t for t in select_patterns_deep(body, k1) + select_patterns_deep(body, k2) if contains(t, k1) and contains(t, k2)]
+            for t in both:                      # one array read that mentions both indices (x[i].f[m])
+                try:
+                    return z3.ForAll([k1, k2], body, patterns=[t])
+                except z3.Z3Exception:
+                    continue
             return z3.ForAll([k1, k2], body)
         if name in ('forall', 'exists'):
             var = args[0][1]
